@@ -269,13 +269,15 @@ def read_cgsmiles(pattern):
         # last residue of a branch (i.e. '...[#residue])'
         # that is the case if the branch closure comes before
         # any new atom begins
-        branch_stop = _find_next_character(pattern, ['['], stop) >\
-                      _find_next_character(pattern, [')'], stop)
+        # several branches may end behind the same residue ('...[#residue]))')
+        # so we process every closing that comes before the next residue
+        pos = stop
 
         # if the branch ends we reset the anchor
         # and set branching False unless we are in
         # a nested branch
-        if stop <= len(pattern) and branch_stop:
+        while _find_next_character(pattern, ['['], pos) >\
+              _find_next_character(pattern, [')'], pos):
             branching = False
             prev_node = branch_anchor.pop()
             if branch_anchor:
@@ -286,12 +288,13 @@ def read_cgsmiles(pattern):
             # We need to know how often the branch has
             # to be added so we first identify the branch
             # terminal character ')' called eon_a.
-            eon_a = _find_next_character(pattern, [')'], stop)
+            eon_a = _find_next_character(pattern, [')'], pos)
+            pos = eon_a + 1
             # Then we check if the expansion character
             # is next.
             if (eon_a+1 < len(pattern) and pattern[eon_a+1] == "|") or\
-               (eon_a+2 < len(pattern) and pattern[eon_a+2] == "|"):
-                if pattern[eon_a+2] == "|":
+               (eon_a+2 < len(pattern) and pattern[eon_a+2] == "|" and pattern[eon_a+1] in symbol_to_order):
+                if pattern[eon_a+1] != "|":
                     anchor_order = symbol_to_order[pattern[eon_a+1]]
                     recipe = recipes[prev_node][0]
                     recipes[prev_node][0] = (recipe[0], recipe[1], anchor_order)
